@@ -134,6 +134,7 @@ type c17Env struct {
 	justEvicted       bool
 
 	evictImmediate bool
+	colocated      bool // generator profile: several reservation-first jobs of one workload whose reservations tend to share a node
 	jobs           []*c17Job
 	pods           []string
 	hist           []string
@@ -578,6 +579,9 @@ func (e *c17Env) createJob(t *rapid.T) {
 	podName := rapid.SampledFrom(e.pods).Draw(t, "jobPod")
 	pod := e.getPod(podName)
 	origin := rapid.SampledFrom([]string{"user", "user", "descheduler", "preset-ref"}).Draw(t, "origin")
+	if e.colocated && origin == "descheduler" {
+		origin = "user"
+	}
 	if pod == nil && origin != "user" {
 		origin = "user"
 	}
@@ -601,6 +605,14 @@ func (e *c17Env) createJob(t *rapid.T) {
 		mode = rapid.SampledFrom([]sev1alpha1.PodMigrationJobMode{"", "", sev1alpha1.PodMigrationJobModeReservationFirst, sev1alpha1.PodMigrationJobModeEvictionDirectly}).Draw(t, "mode")
 		if d := rapid.SampledFrom([]time.Duration{-1, 0, 30 * time.Second, 5 * time.Minute, 5 * time.Minute}).Draw(t, "ttl"); d >= 0 {
 			ttl = &metav1.Duration{Duration: d}
+		}
+		if e.colocated {
+			if mode == sev1alpha1.PodMigrationJobModeEvictionDirectly {
+				mode = sev1alpha1.PodMigrationJobModeReservationFirst
+			}
+			if ttl != nil && ttl.Duration == 30*time.Second {
+				ttl = nil
+			}
 		}
 		job := &sev1alpha1.PodMigrationJob{
 			ObjectMeta: metav1.ObjectMeta{Name: j.name},
@@ -750,9 +762,28 @@ func c17JobCond(job *sev1alpha1.PodMigrationJob, typ sev1alpha1.PodMigrationJobC
 	return nil
 }
 
+// colocateNode: under the "colocated" profile, often the node that already holds another job's reservation.
+func (e *c17Env) colocateNode(t *rapid.T, j *c17Job) string {
+	if !e.colocated {
+		return ""
+	}
+	for _, o := range e.jobs {
+		if o == j {
+			continue
+		}
+		if r := e.getResv(o.resvName); r != nil && r.Status.NodeName != "" && rapid.IntRange(0, 2).Draw(t, "colocate") > 0 {
+			return r.Status.NodeName
+		}
+	}
+	return ""
+}
+
 // pickNode: where the scheduler puts a reservation. The controller's own template excludes the pod's node, a
 // user-supplied one need not, and the property has a clause for it, so the pod's node is drawn often.
 func (e *c17Env) pickNode(t *rapid.T, j *c17Job) string {
+	if n := e.colocateNode(t, j); n != "" {
+		return n
+	}
 	if p := e.getPod(j.podName); p != nil && p.Spec.NodeName != "" && rapid.Bool().Draw(t, "onPodNode") {
 		return p.Spec.NodeName
 	}
@@ -792,10 +823,15 @@ func TestVerifC17History(t *testing.T) {
 		e.evictImmediate = rapid.Bool().Draw(t, "evictDeletesPodAtOnce")
 		maxJobs := rapid.IntRange(1, 2).Draw(t, "maxJobs")
 		nPods := rapid.IntRange(1, 2).Draw(t, "pods")
+		e.colocated = rapid.SampledFrom([]bool{false, true}).Draw(t, "colocatedProfile")
+		if e.colocated {
+			maxJobs = 2
+			args.DefaultJobMode = string(sev1alpha1.PodMigrationJobModeReservationFirst)
+		}
 		pendingPod := false
 		for i := 0; i < nPods; i++ {
 			name := fmt.Sprintf("pod-%d", i)
-			pending := rapid.SampledFrom([]bool{false, false, false, false, false, false, false, false, false, true}).Draw(t, "podPending")
+			pending := rapid.SampledFrom([]bool{false, false, false, false, false, false, false, false, false, true}).Draw(t, "podPending") && !e.colocated
 			pendingPod = pendingPod || pending
 			node := rapid.SampledFrom(c17Nodes[:2]).Draw(t, "podNode")
 			p := e.createPod(name, node, pending, true)
@@ -805,8 +841,19 @@ func TestVerifC17History(t *testing.T) {
 		e.hist = append(e.hist, fmt.Sprintf("controller defaultMode=%s defaultTTL=%v evictorDeletesPodAtOnce=%v", args.DefaultJobMode, args.DefaultJobTTL.Duration, e.evictImmediate))
 		e.r = e.newReconciler()
 		e.createJob(t)
-		if maxJobs > 1 && rapid.Bool().Draw(t, "secondJobAtStart") {
+		if maxJobs > 1 && (e.colocated || rapid.Bool().Draw(t, "secondJobAtStart")) {
 			e.createJob(t)
+		}
+		if e.colocated {
+			// this profile aims at "the eviction went through but could not be recorded" / "the eviction was rejected"
+			switch rapid.IntRange(0, 3).Draw(t, "initialFault") {
+			case 2:
+				e.faultArmed = rapid.IntRange(1, 2).Draw(t, "failWrites")
+				e.hist = append(e.hist, fmt.Sprintf("fault plan: the %d write(s) following the next successful Evict fail (applied-but-lost=false)", e.faultArmed))
+			case 3:
+				e.evictFailArmed = 1
+				e.hist = append(e.hist, "fault plan: the next 1 Evict call(s) are rejected")
+			}
 		}
 
 		pickJob := func(t *rapid.T) *c17Job { return e.jobs[rapid.IntRange(0, len(e.jobs)-1).Draw(t, "job")] }
@@ -835,7 +882,7 @@ func TestVerifC17History(t *testing.T) {
 					gone = append(gone, pn)
 				}
 			}
-			if len(gone) > 0 && rapid.Bool().Draw(t, "reuseName") {
+			if len(gone) > 0 && (rapid.Bool().Draw(t, "reuseName") || (e.colocated && rapid.Bool().Draw(t, "reuseName2"))) {
 				name = rapid.SampledFrom(gone).Draw(t, "reusedName")
 			}
 			if api := e.getJob(j.name); api != nil && c17JobCond(api, sev1alpha1.PodMigrationJobConditionEviction) == nil && !c17Terminal(api.Status.Phase) {
@@ -884,6 +931,9 @@ func TestVerifC17History(t *testing.T) {
 					e.hist = append(e.hist, fmt.Sprintf("env: evicted pod %s (uid %s) is gone", pod.Name, pod.UID))
 				case r != nil && c17ResvIsPending(r):
 					node := rapid.SampledFrom(c17Nodes).Draw(t, "node")
+					if n := e.colocateNode(t, j); n != "" {
+						node = n
+					}
 					for _, n := range c17Nodes {
 						if pod != nil && node == pod.Spec.NodeName {
 							node = n
@@ -1055,6 +1105,9 @@ func TestVerifC17History(t *testing.T) {
 				}
 				e.faultAfterApply = rapid.IntRange(0, 3).Draw(t, "lostResponse") == 0
 				kind := rapid.IntRange(0, 3).Draw(t, "faultKind")
+				if e.colocated && kind < 2 && rapid.Bool().Draw(t, "aimAtEvict") {
+					kind += 2
+				}
 				if kind == 3 {
 					e.evictFailArmed = rapid.IntRange(1, 2).Draw(t, "failEvicts")
 					e.hist = append(e.hist, fmt.Sprintf("fault plan: the next %d Evict call(s) are rejected", e.evictFailArmed))
@@ -1143,6 +1196,7 @@ func TestVerifC17History(t *testing.T) {
 		c.ClassIf(direct, "mode:eviction-directly")
 		c.ClassIf(rfirst, "mode:reservation-first")
 		c.ClassIf(len(e.jobs) > 1, "two-jobs")
+		c.ClassIf(e.colocated, "profile:colocated-reservations")
 		c.ClassIf(evicted, "evicted")
 		c.ClassIf(afterTerminal, "reconciled-after-finish")
 		c.ClassIf(e.sawRestart, "restart")
